@@ -226,6 +226,10 @@ def applyOp (s : St) (ws : List String) : St × String :=
     | none => (s, "undefined")
   | ["spec.c04", micr, ie] =>
     (s, s!"count={if micr = "1" && ie = "1" then 1 else 0} transparent=1")
+  | ["spec.c04two", m1, i1, m2, i2] =>
+    let e1 := if m1 = "1" && i1 = "1" then 1 else 0
+    let e2 := if m2 = "1" && i2 = "1" then 1 else 0
+    (s, s!"count={e1 + e2} transparent=1")
   | ["spec.c04pair"] => (s, "count_le_2=1 transparent=1")
   | ["spec.bw", port, v] =>
     match port.toNat?, byteOf v with
